@@ -386,7 +386,70 @@ def c_torch_copy(ctx, args):
     return None
 
 
-CHECKS = {'copy': c_copy, 'query': c_query, 'inplace': c_inplace, 'torch_copy': c_torch_copy}
+def c_ctor_fresh(ctx, args):
+    """constructors return FRESH objects: build, mutate the result in place, build again with the same arguments -- the second result must be what the first one was
+    (a memoised table handed out without copying would be corrupted by the in-place update of its first user)"""
+    be, what, n, seed = args
+    rng = __import__('random').Random(seed)
+    if be == 'np':
+        M, lib, ST_, CI_ = NP, pc, pc.stabilizer, pc.circuit
+    else:
+        import vlib.impl_torch as TT, torchclifford as tc
+        M, lib, ST_, CI_ = TT, tc, tc.stabilizer, tc.circuit
+    g = gen.rpauli(rng, n, herm=True, nonzero=True)
+    if what == 'rotation_map':
+        f = lambda: ST_.clifford_rotation_map(M.P(g))
+    elif what == 'identity_map':
+        f = lambda: ST_.identity_map(n)
+    elif what == 'zero_state':
+        f = lambda: ST_.zero_state(n)
+    elif what == 'mixed_state':
+        f = lambda: ST_.maximally_mixed_state(n)
+    elif what == 'ghz_state':
+        if be != 'np' or n < 2:
+            return None
+        f = lambda: ST_.ghz_state(n)
+    elif what == 'stabilizer_state':
+        m = gen.rmap(rng, ctx.model, n)
+        stabs = [[m[2 * i + 1][0], rng.choice([0, 2])] for i in range(n)]
+        f = lambda: ST_.stabilizer_state(M.PL(stabs))
+    elif what == 'named_gate':
+        if be != 'np':
+            return None
+        k = rng.choice(['H', 'S', 'X', 'Y', 'Z', 'C', 'CNOT'])
+        if k == 'CNOT' and n < 2:
+            k = 'H'
+        f = (lambda: CI_.CNOT(0, 1).forward_map) if k == 'CNOT' else ((lambda: CI_.C(seed % 24, 0).forward_map) if k == 'C' else (lambda: getattr(CI_, k)(0).forward_map))
+    elif what == 'rotation_gate':
+        f = lambda: CI_.clifford_rotation_gate(M.P(g)).generator
+    elif what == 'pauli':
+        f = lambda: lib.paulialg.pauli([int(2 * a + b) if (a, b) != (1, 1) else 2 for a, b in zip(g[0][0::2], g[0][1::2])])
+    else:
+        return None
+
+    def val(o):
+        if hasattr(o, 'gs'):
+            return M.oST(o) if hasattr(o, 'r') else M.oPL(o)
+        return M.oP(o)
+    try:
+        r1 = f()
+        v1 = val(r1)
+        # in-place update of the first result (what any user of the object may do)
+        if hasattr(r1, 'gs'):
+            r1.gs[...] = 1 - r1.gs
+            r1.ps[...] = (r1.ps + 1) % 4
+        else:
+            r1.g[...] = 1 - r1.g
+        v2 = val(f())
+    except Exception as e:
+        return {'kind': 'oracle', 'where': '%s:%s constructor raised %s' % (be, what, type(e).__name__), 'observed': str(e)[:100], 'expected': 'an object'}
+    if v2 != v1:
+        return {'kind': 'oracle', 'where': '%s:%s returns an object that shares data with an earlier result (second call sees the in-place update of the first)' % (be, what),
+                'observed': v2, 'expected': v1, 'tags': ['ctor_shared', be, what]}
+    return None
+
+
+CHECKS = {'ctor_fresh': c_ctor_fresh, 'copy': c_copy, 'query': c_query, 'inplace': c_inplace, 'torch_copy': c_torch_copy}
 
 
 def run(ctx):
@@ -412,3 +475,7 @@ def run(ctx):
     for kind in ['Pauli', 'PauliList', 'CliffordMap', 'StabilizerState', 'PauliPolynomial']:
         for _ in range(max(2, int(3 * B))):
             do(ctx, 'torch_copy', [kind, rng.randint(1, 3), rng.randrange(10 ** 6)], nontrivial=('t', kind, ctx.res.evaluations))
+    for be in ('np', 'torch'):
+        for what in ['rotation_map', 'identity_map', 'zero_state', 'mixed_state', 'ghz_state', 'stabilizer_state', 'named_gate', 'rotation_gate', 'pauli']:
+            for _ in range(max(3, int(3 * B))):
+                do(ctx, 'ctor_fresh', [be, what, rng.randint(1, 3), rng.randrange(10 ** 6)], nontrivial=('cf', be, what, ctx.res.evaluations))
